@@ -148,6 +148,7 @@ theorem step_client (s : Sys F) (ev : Ev) :
   | setCfg cfg => exact ⟨rfl, rfl⟩
   | crit d => exact ⟨rfl, rfl⟩
   | failNext c => exact ⟨rfl, rfl⟩
+  | failBind c => exact ⟨rfl, rfl⟩
 
 /-- **The relay log of a run.**  With distinct conn ids, the concatenation of `Out.client` over any run
 is `relayLog` of the event list. -/
@@ -214,6 +215,7 @@ theorem relayLog_true (known : List Nat) (evs : List Ev) :
     | setCfg c => simpa [relayLog, relayables, ckAfter] using ih
     | crit d => simpa [relayLog, relayables, ckAfter] using ih
     | failNext c => simpa [relayLog, relayables, ckAfter] using ih
+    | failBind c => simpa [relayLog, relayables, ckAfter] using ih
 
 /-- No non-empty client datagram among the events. -/
 def noClient : List Ev → Bool
@@ -236,6 +238,7 @@ theorem relayLog_false_noClient (known : List Nat) (evs : List Ev) (h : noClient
     | setCfg c => exact ih h
     | crit d => exact ih h
     | failNext c => exact ih h
+    | failBind c => exact ih h
 
 theorem relayLog_false_split (known : List Nat) (pre : List Ev) (now : Nat) (pkt : Bytes) (post : List Ev)
     (h : noClient pre = true) (hne : pkt.isEmpty = false) :
@@ -253,6 +256,7 @@ theorem relayLog_false_split (known : List Nat) (pre : List Ev) (now : Nat) (pkt
     | setCfg c => exact ih h
     | crit d => exact ih h
     | failNext c => exact ih h
+    | failBind c => exact ih h
 
 theorem sublist_flatMap_relayCopies (l : List Bytes) : l.Sublist (l.flatMap relayCopies) := by
   induction l with
